@@ -14,6 +14,7 @@ Helper lemmas for property C03, part 1: the constructors used by `canonical`.
 import DSymVerif.Proofs.DSetSym
 import DSymVerif.Proofs.BuildSet
 import DSymVerif.Model.Canonical
+import Mathlib.Order.Interval.Finset.Nat
 
 namespace DSymVerif.DS
 namespace CanonP
@@ -361,6 +362,198 @@ theorem buildSymUsingVs_spec {ds : DSetData} (h : ValidSet ds) (hf : FarCommute 
   have hval := inv.vals i d hi h1 h2 ⟨r, Or.inr ⟨List.mem_range.2 hi, hr⟩, hor⟩
   unfold DSymData.vAdj
   rw [inv.valid.vPartial_adj (by rw [hdim]; exact hi) h1 (by rw [hsize]; exact h2), hval]
+
+/-! ### the chamber map and its inverse -/
+
+/-- `f` (a `Vec` of length n+1, entry 0 unused) restricted to 1..n is an injection into 1..n,
+    hence a bijection of 1..n (`surj_of_inj`) -/
+structure PermOn (n : Nat) (f : Array Nat) : Prop where
+  size : f.size = n + 1
+  range : ∀ d, 1 ≤ d → d ≤ n → 1 ≤ f.getD d 0 ∧ f.getD d 0 ≤ n
+  inj : ∀ d e, 1 ≤ d → d ≤ n → 1 ≤ e → e ≤ n → f.getD d 0 = f.getD e 0 → d = e
+
+/-- pigeonhole: an injection of 1..n into itself is onto -/
+theorem surj_of_inj {n : Nat} {f : Nat → Nat}
+    (hr : ∀ d, 1 ≤ d → d ≤ n → 1 ≤ f d ∧ f d ≤ n)
+    (hi : ∀ d e, 1 ≤ d → d ≤ n → 1 ≤ e → e ≤ n → f d = f e → d = e) :
+    ∀ e, 1 ≤ e → e ≤ n → ∃ d, 1 ≤ d ∧ d ≤ n ∧ f d = e := by
+  have hsub : (Finset.Icc 1 n).image f ⊆ Finset.Icc 1 n := by
+    intro x hx
+    obtain ⟨d, hd, rfl⟩ := Finset.mem_image.1 hx
+    have := Finset.mem_Icc.1 hd
+    exact Finset.mem_Icc.2 (hr d this.1 this.2)
+  have hcard : ((Finset.Icc 1 n).image f).card = (Finset.Icc 1 n).card := by
+    apply Finset.card_image_of_injOn
+    intro a ha b hb hab
+    have ha' := Finset.mem_Icc.1 (Finset.mem_coe.1 ha)
+    have hb' := Finset.mem_Icc.1 (Finset.mem_coe.1 hb)
+    exact hi a b ha'.1 ha'.2 hb'.1 hb'.2 hab
+  have heq : (Finset.Icc 1 n).image f = Finset.Icc 1 n :=
+    Finset.eq_of_subset_of_card_le hsub (by rw [hcard])
+  intro e h1 h2
+  have : e ∈ (Finset.Icc 1 n).image f := by rw [heq]; exact Finset.mem_Icc.2 ⟨h1, h2⟩
+  obtain ⟨d, hd, rfl⟩ := Finset.mem_image.1 this
+  have := Finset.mem_Icc.1 hd
+  exact ⟨d, this.1, this.2, rfl⟩
+
+def invStep (src2img : Array Nat) (acc : Outcome (Array Nat)) (d0 : Nat) : Outcome (Array Nat) :=
+  match acc with
+  | .ok a =>
+    (match src2img[d0 + 1]? with
+     | some e => if e < a.size then .ok (a.setIfInBounds e (d0 + 1)) else .panic
+     | none => .panic)
+  | o => o
+
+theorem invertMap_eq (size : Nat) (f : Array Nat) :
+    invertMap size f = (List.range size).foldl (invStep f) (.ok (Array.replicate (size + 1) 0)) := rfl
+
+theorem invertMap_prefix {n : Nat} {f : Array Nat} (hf : PermOn n f) :
+    ∀ k, k ≤ n → ∃ a, (List.range k).foldl (invStep f) (.ok (Array.replicate (n + 1) 0)) = .ok a ∧
+      a.size = n + 1 ∧ ∀ d, 1 ≤ d → d ≤ k → a.getD (f.getD d 0) 0 = d
+  | 0, _ => ⟨_, rfl, by simp, fun d h1 h2 => by omega⟩
+  | k + 1, hk => by
+    obtain ⟨a, ea, sa, ha⟩ := invertMap_prefix hf k (by omega)
+    rw [List.range_succ, List.foldl_append, ea]
+    have hfk : f[k + 1]? = some (f.getD (k + 1) 0) :=
+      getElem?_eq_some_getD f (k + 1) 0 (by rw [hf.size]; omega)
+    have hr := hf.range (k + 1) (by omega) hk
+    simp only [List.foldl_cons, List.foldl_nil, invStep, hfk]
+    rw [if_pos (by rw [sa]; omega)]
+    refine ⟨_, rfl, by simp [sa], ?_⟩
+    intro d h1 h2
+    rw [getD_setIfInBounds]
+    by_cases hd : d = k + 1
+    · subst hd; rw [if_pos ⟨rfl, by rw [sa]; omega⟩]
+    · rw [if_neg, ha d h1 (by omega)]
+      intro hc
+      exact hd (hf.inj (k + 1) d (by omega) hk h1 (by omega) hc.1).symm
+
+/-- the `img2src` loop of `canonical` does not panic on a bijective map and inverts it -/
+theorem invertMap_spec {n : Nat} {f : Array Nat} (hf : PermOn n f) :
+    ∃ g, invertMap n f = .ok g ∧ g.size = n + 1 ∧
+      (∀ d, 1 ≤ d → d ≤ n → g.getD (f.getD d 0) 0 = d) ∧
+      (∀ e, 1 ≤ e → e ≤ n → (1 ≤ g.getD e 0 ∧ g.getD e 0 ≤ n) ∧ f.getD (g.getD e 0) 0 = e) := by
+  obtain ⟨g, eg, sg, hg⟩ := invertMap_prefix hf n (Nat.le_refl _)
+  refine ⟨g, by rw [invertMap_eq]; exact eg, sg, hg, ?_⟩
+  intro e h1 h2
+  obtain ⟨d, hd1, hd2, rfl⟩ := surj_of_inj (f := fun d => f.getD d 0) hf.range hf.inj e h1 h2
+  show (1 ≤ g.getD (f.getD d 0) 0 ∧ g.getD (f.getD d 0) 0 ≤ n) ∧ f.getD (g.getD (f.getD d 0) 0) 0 = f.getD d 0
+  rw [hg d hd1 hd2]
+  exact ⟨⟨hd1, hd2⟩, rfl⟩
+
+/-! ### the tail of `canonical` -/
+
+/-- **Rebuilding through a bijective chamber map.**  For a valid symbol `s` and a chamber map `f`
+    that is a bijection of 1..size, the construction at the end of `canonical`
+    (`img2src`, `build_set`, `build_sym_using_vs`) does not panic and returns a valid symbol `c`
+    of the same size and dimension with  c.op i (f d) = f (s.op i d)  and  c.v i (f d) = s.v i d. -/
+theorem rebuild_spec {s : DSymData} (h : ValidSym s) (hsize : 1 ≤ s.size) (hdim : 1 ≤ s.dim)
+    {f : Array Nat} (hf : PermOn s.size f) :
+    ∃ c, rebuild s f = .ok c ∧ ValidSym c ∧ c.size = s.size ∧ c.dim = s.dim ∧
+      (∀ i d, i ≤ s.dim → 1 ≤ d → d ≤ s.size →
+        c.dset.opU i (f.getD d 0) = f.getD (s.dset.opU i d) 0) ∧
+      (∀ i d, i < s.dim → 1 ≤ d → d ≤ s.size → c.vAdj i (f.getD d 0) = s.vAdj i d) := by
+  obtain ⟨g, eg, _, hgf, hfg⟩ := invertMap_spec hf
+  have hs := h.set
+  have sdim : s.dset.dim = s.dim := rfl
+  have ssize : s.dset.size = s.size := rfl
+  -- the conjugated operation
+  let F : Nat → Nat → Nat := fun i d => f.getD (s.dset.opU i (g.getD d 0)) 0
+  have hop : ∀ i d, i ≤ s.dim → 1 ≤ d → d ≤ s.size →
+      (s.op i (g.getD d 0)).map (fun e => f.getD e 0) = some (F i d) := by
+    intro i d hi h1 h2
+    have hg := (hfg d h1 h2).1
+    show (s.dset.opSimple i (g.getD d 0)).map _ = _
+    rw [opSimple_inR (by rw [sdim]; exact hi) hg.1 (by rw [ssize]; exact hg.2)]
+    rfl
+  have hFr : ∀ i d, i ≤ s.dim → 1 ≤ d → d ≤ s.size → 1 ≤ F i d ∧ F i d ≤ s.size := by
+    intro i d hi h1 h2
+    have hg := (hfg d h1 h2).1
+    have ho := hs.range i (g.getD d 0) hi hg.1 hg.2
+    exact hf.range _ ho.1 ho.2
+  have hgF : ∀ i d, i ≤ s.dim → 1 ≤ d → d ≤ s.size → g.getD (F i d) 0 = s.dset.opU i (g.getD d 0) := by
+    intro i d hi h1 h2
+    have hg := (hfg d h1 h2).1
+    have ho := hs.range i (g.getD d 0) hi hg.1 hg.2
+    exact hgf _ ho.1 ho.2
+  have hFi : ∀ i d, i ≤ s.dim → 1 ≤ d → d ≤ s.size → F i (F i d) = d := by
+    intro i d hi h1 h2
+    have hg := (hfg d h1 h2).1
+    show f.getD (s.dset.opU i (g.getD (F i d) 0)) 0 = d
+    rw [hgF i d hi h1 h2, hs.invol i _ hi hg.1 hg.2, (hfg d h1 h2).2]
+  obtain ⟨ds', eds, dsize, ddim, dvalid, dop⟩ :=
+    buildSet_of_total_involution (op := fun i d => (s.op i (g.getD d 0)).map (fun e => f.getD e 0))
+      (f := F) hsize hdim hop hFr hFi
+  have dfar : FarCommute ds' := by
+    intro i j d hij hj h1 h2
+    rw [ddim] at hj
+    rw [dsize] at h2
+    have hi : i ≤ s.dim := by omega
+    have hg := (hfg d h1 h2).1
+    have r1 := hFr i d hi h1 h2
+    have r2 := hFr j d hj h1 h2
+    rw [dop i d hi h1 h2, dop j d hj h1 h2, dop j _ hj r1.1 r1.2, dop i _ hi r2.1 r2.2]
+    show f.getD (s.dset.opU j (g.getD (F i d) 0)) 0 = f.getD (s.dset.opU i (g.getD (F j d) 0)) 0
+    rw [hgF i d hi h1 h2, hgF j d hj h1 h2, h.far i j _ hij hj hg.1 hg.2]
+  -- the transported branching numbers
+  let V : Nat → Nat → Nat := fun i d => s.orbitVs.getD (s.ixAt i (g.getD d 0)) 0
+  have hv : ∀ i d, i < ds'.dim → 1 ≤ d → d ≤ ds'.size → s.vAdj i (g.getD d 0) = some (V i d) := by
+    intro i d hi h1 h2
+    rw [ddim] at hi
+    rw [dsize] at h2
+    have hg := (hfg d h1 h2).1
+    unfold DSymData.vAdj
+    rw [h.vPartial_adj hi hg.1 hg.2]
+  have horb : ∀ i x y, i < s.dim → 1 ≤ x → x ≤ s.size → Orb2 ds' i (i + 1) x y →
+      Orb2 s.dset i (i + 1) (g.getD x 0) (g.getD y 0) := by
+    intro i x y hi h1 h2 ho
+    induction ho with
+    | refl => exact Orb2.refl _
+    | @stepI e ho' ih =>
+      have he := Orb2.range dvalid (by rw [ddim]; omega) (by rw [ddim]; omega)
+        ⟨h1, by rw [dsize]; exact h2⟩ ho'
+      rw [dsize] at he
+      rw [dop i e (by omega) he.1 he.2, hgF i e (by omega) he.1 he.2]
+      exact Orb2.stepI ih
+    | @stepJ e ho' ih =>
+      have he := Orb2.range dvalid (by rw [ddim]; omega) (by rw [ddim]; omega)
+        ⟨h1, by rw [dsize]; exact h2⟩ ho'
+      rw [dsize] at he
+      rw [dop (i + 1) e (by omega) he.1 he.2, hgF (i + 1) e (by omega) he.1 he.2]
+      exact Orb2.stepJ ih
+  have hV : ∀ i x y, i < ds'.dim → 1 ≤ x → x ≤ ds'.size → Orb2 ds' i (i + 1) x y → V i x = V i y := by
+    intro i x y hi h1 h2 ho
+    rw [ddim] at hi
+    rw [dsize] at h2
+    have hy := Orb2.range dvalid (by rw [ddim]; omega) (by rw [ddim]; omega)
+      ⟨h1, by rw [dsize]; exact h2⟩ ho
+    rw [dsize] at hy
+    have hgx := (hfg x h1 h2).1
+    have hgy := (hfg y hy.1 hy.2).1
+    show s.orbitVs.getD (s.ixAt i (g.getD x 0)) 0 = s.orbitVs.getD (s.ixAt i (g.getD y 0)) 0
+    rw [(h.ixAt_eq_iff hi hgx.1 hgx.2 hgy.1 hgy.2).2 (horb i x y hi h1 h2 ho)]
+  obtain ⟨c, ec, cvalid, cdset, cv⟩ :=
+    buildSymUsingVs_spec (v := fun i d => s.vAdj i (g.getD d 0)) dvalid dfar hv hV
+  have csize : c.size = s.size := by show c.dset.size = _; rw [cdset, dsize]
+  have cdim : c.dim = s.dim := by show c.dset.dim = _; rw [cdset, ddim]
+  refine ⟨c, ?_, cvalid, csize, cdim, ?_, ?_⟩
+  · unfold rebuild
+    rw [eg]
+    simp only
+    rw [eds]
+    exact ec
+  · intro i d hi h1 h2
+    have r := hf.range d h1 h2
+    rw [cdset, dop i _ hi r.1 r.2]
+    show f.getD (s.dset.opU i (g.getD (f.getD d 0) 0)) 0 = _
+    rw [hgf d h1 h2]
+  · intro i d hi h1 h2
+    have r := hf.range d h1 h2
+    rw [cv i _ (by rw [ddim]; exact hi) r.1 (by rw [dsize]; exact r.2)]
+    show some (s.orbitVs.getD (s.ixAt i (g.getD (f.getD d 0) 0)) 0) = _
+    rw [hgf d h1 h2]
+    unfold DSymData.vAdj
+    rw [h.vPartial_adj hi h1 h2]
 
 end CanonP
 end DSymVerif.DS
